@@ -2,6 +2,7 @@
 // built from /repo's working tree with --prefix Vproc --public-flat-rw) on planted states.
 // stdin : one case per line  "plant byte rst pc areg breg oreg ddata"
 //         plant=1: load the four registers before the cycle; plant=0: continue from the state the design is in
+//         rst=0/1: i_rst level at the rising clock edge; rst=2: no clock edge, i_rst pulses high with the clock low
 // stdout: "R <outputs before the edge, sorted by name> | <registers after the rising edge, sorted by name>"
 // The registers are reached through Verilator's scope/variable tables, so the same source serves every variant of
 // the design whatever Verilator decides to inline.
@@ -50,6 +51,16 @@ int main(int argc, char **argv) {
     std::printf("R o_d_addr=%u o_d_data=%u o_d_valid=%u o_d_we=%u o_f_addr=%u o_f_valid=%u o_syscall=%u o_syscall_valid=%u |",
                 (unsigned)top->o_d_addr, (unsigned)top->o_d_data, (unsigned)top->o_d_valid, (unsigned)top->o_d_we,
                 (unsigned)top->o_f_addr, (unsigned)top->o_f_valid, (unsigned)top->o_syscall, (unsigned)top->o_syscall_valid);
+    if (f[2] == 2) {
+      // a reset pulse between clock edges: i_rst rises while the clock stays low.  A register with an asynchronous reset
+      // (posedge i_rst in its sensitivity list) takes its reset value now, one with a synchronous reset keeps its value
+      top->i_rst = 1;
+      top->eval();
+      std::printf(" areg_q=%u breg_q=%u oreg_q=%u pc_q=%u\n", *a, *b, *o, *pc);
+      top->i_rst = 0;
+      top->eval();
+      continue;
+    }
     top->i_rst = f[2] ? 1 : 0;
     top->i_clk = 1;
     top->eval();
